@@ -241,10 +241,42 @@ class _Unroller(ast.NodeTransformer):
         return node
 
 
+def _fold_appends(stmts):
+    """v = []  directly followed by  v.append(E1) ... v.append(Ek)   ->   v = [E1, ..., Ek]     (what an unrolled comprehension leaves)"""
+    out = []
+    i = 0
+    while i < len(stmts):
+        s = stmts[i]
+        if isinstance(s, ast.Assign) and len(s.targets) == 1 and isinstance(s.targets[0], ast.Name) and isinstance(s.value, ast.List) and not s.value.elts:
+            v = s.targets[0].id
+            elts = []
+            j = i + 1
+            while j < len(stmts):
+                t = stmts[j]
+                if isinstance(t, ast.Expr) and isinstance(t.value, ast.Call) and isinstance(t.value.func, ast.Attribute) and t.value.func.attr == 'append' \
+                        and isinstance(t.value.func.value, ast.Name) and t.value.func.value.id == v and len(t.value.args) == 1 and not t.value.keywords \
+                        and not any(isinstance(x, ast.Name) and x.id == v for x in ast.walk(t.value.args[0])):
+                    elts.append(t.value.args[0])
+                    j += 1
+                else:
+                    break
+            if elts:
+                out.append(ast.copy_location(ast.Assign(targets=s.targets, value=ast.copy_location(ast.List(elts=elts, ctx=ast.Load()), s)), s))
+                i = j
+                continue
+        for fld in ('body', 'orelse', 'finalbody'):
+            b = getattr(s, fld, None)
+            if isinstance(b, list) and b and isinstance(b[0], ast.stmt) and not isinstance(s, (ast.FunctionDef, ast.ClassDef)):
+                setattr(s, fld, _fold_appends(b))
+        out.append(s)
+        i += 1
+    return out
+
+
 def _simplify(stmts):
     mod = ast.Module(body=stmts, type_ignores=[])
     mod = _Unroller().visit(mod)
-    return mod.body
+    return _fold_appends(mod.body)
 
 
 def _fold_temp_lists(stmts):
@@ -254,7 +286,7 @@ def _fold_temp_lists(stmts):
     while i < len(stmts):
         s = stmts[i]
         nx = stmts[i + 1] if i + 1 < len(stmts) else None
-        if (isinstance(s, ast.Assign) and len(s.targets) == 1 and isinstance(s.targets[0], ast.Name) and '__value' in s.targets[0].id
+        if (isinstance(s, ast.Assign) and len(s.targets) == 1 and isinstance(s.targets[0], ast.Name) and '__' in s.targets[0].id
                 and isinstance(s.value, (ast.List, ast.Tuple)) and isinstance(nx, ast.Assign) and len(nx.targets) == 1):
             t = s.targets[0].id
             v = nx.value
